@@ -104,8 +104,43 @@ FFailed(e) ==
       es == ElemSeq(e.ssh)
   IN UNION {FFailedE(e, e.el[j], ValOf(es[j], P, e.A)) : j \in 1..Len(es)}
 
+(***************************************************************************)
+(* snippet on long signals (C12): input = tone at bin k of a length-N      *)
+(* signal (complex exp(2 pi i k m / N), real 2 + cos(2 pi k m / N)), so    *)
+(* its band-limited value at any position x is exp(2 pi i k x / N).        *)
+(* The event carries the requested instant t in samples as an exact        *)
+(* rational (of the float count, of duration * rate, or of (Time - start)  *)
+(* * rate), n, the form, whether the call was refused, and for a returned  *)
+(* signal its length, off = (start_time' - start_time) * rate (exact), and *)
+(* a few output samples y at indices j.  res = time resolution in samples  *)
+(* (a few 2^-52 day of Time arithmetic plus 2^-47 relative).               *)
+(* Demanded: ValueError iff t < 0 or t + n > N (not judged within res of   *)
+(* the boundary for the duration / Time forms); exactly n samples;         *)
+(* off = t within res; y[j] = value of z at t + j within 1e-5.             *)
+(***************************************************************************)
+SFailed(e) ==
+  LET t == Rr(e.t)
+      N == e.N
+      res == Rr(e.res)
+      slack == RSub(RAdd(t, RI(e.n)), RI(N))
+      mustRefuse == RSign(t) < 0 \/ RSign(slack) > 0
+      nearEdge == e.form # "count" /\ (RLe(RAbs(slack), res) \/ RLe(RAbs(t), res))
+      ak == IF e.k < 0 THEN -e.k ELSE e.k
+      tolP == Add(Tol5, FFromRat(RMul(RQ(7 * ak, N), res)))
+      Want(j) == RMul(RQ(e.k, N), RAdd(t, RI(j)))
+      PBad(p) == IF e.real
+                 THEN ~FClose(p.y.re, Add(FFromInt(2), CosSin(Want(p.j)).c), tolP)
+                 ELSE ~CClose(C(p.y.re, p.y.im), CExp(Want(p.j)), tolP)
+  IN IF nearEdge THEN {}
+     ELSE IF mustRefuse THEN (IF e.refused THEN {} ELSE {"no-refusal"})
+     ELSE IF e.refused THEN {"refused-valid-request"}
+     ELSE (IF e.len = e.n THEN {} ELSE {"length"})
+          \cup (IF ~e.hasT \/ RLe(RAbs(RSub(Rr(e.off), t)), res) THEN {} ELSE {"start-time"})
+          \cup (IF \E i \in 1..Len(e.probes) : PBad(e.probes[i]) THEN {"value"} ELSE {})
+
 Failed(e) == IF e.ev = "tshift" THEN TFailed(e)
              ELSE IF e.ev = "fshift" THEN FFailed(e)
+             ELSE IF e.ev = "snip" THEN SFailed(e)
              ELSE {"unknown-event"}
 
 TraceInit == l = 1 /\ nbad = 0
